@@ -93,3 +93,16 @@ def concat(chunks, dtype=None):
 
 def stored_types(st, run_id, types):
     return {t for t in types if st.is_stored(run_id, t)}
+
+
+def exc_fp(e, depth=2):
+    """fingerprint of an exception: class + the innermost `depth` strax call sites (file.function),
+    i.e. *where in strax* it was raised - independent of line numbers and of the harness"""
+    tb = e.__traceback__
+    sites = []
+    while tb:
+        fn = tb.tb_frame.f_code.co_filename
+        if "/strax/" in fn:
+            sites.append(os.path.basename(fn)[:-3] + "." + tb.tb_frame.f_code.co_name)
+        tb = tb.tb_next
+    return f"raised:{type(e).__name__}:" + ">".join(sites[-depth:])
